@@ -83,13 +83,46 @@ def mem_accesses(fn, defs):
     return out
 
 
-def service_effects(fn, defs):
+def service_effects(fn, defs, P=None):
+    """blocks of fn in which the service acts: an effect call, a machine-memory access, a call of a local helper that
+    (transitively) does one of these, or the construction of a closure whose body does"""
     eff = set()
+
+    def acts(g, seen):
+        if g["name"] in seen:
+            return False
+        seen.add(g["name"])
+        if any(EFFECT_CALL.search(t[1].get("def") or "") for _, t in M.calls_in(g)):
+            return True
+        for bb in g["blocks"]:
+            for st_ in bb["stmts"]:
+                if st_[0] == "assign" and any(isinstance(e, list) and e[0] == "f" and e[2] == "mem" for pl in ([st_[1]] + ([st_[2][1][1]] if st_[2][0] == "use" and st_[2][1][0] in ("copy", "move") else [])) for e in pl["p"]):
+                    return True
+                if st_[0] == "assign" and st_[2][0] == "agg" and st_[2][1].get("k") == "closure" and P is not None:
+                    h = P.by_name.get(("bin", st_[2][1].get("name"))) or P.by_name.get(("lib", st_[2][1].get("name")))
+                    if h is not None and acts(h, seen):
+                        return True
+        for _, t in M.calls_in(g):
+            h = P.fns.get(t[1].get("id")) if P is not None and t[1].get("local") else None
+            if h is not None and h["name"].startswith("driver::") and acts(h, seen):
+                return True
+        return False
     for bi, t in M.calls_in(fn):
         if EFFECT_CALL.search(t[1].get("def") or ""):
             eff.add(bi)
+        elif P is not None and t[1].get("local"):
+            h = P.fns.get(t[1].get("id"))
+            if h is not None and h["name"].startswith("driver::") and acts(h, {fn["name"]}):
+                eff.add(bi)
     for bi, s, k, pl in mem_accesses(fn, defs):
         eff.add(bi)
+    if P is not None:
+        for bi, bb in enumerate(fn["blocks"]):
+            for st_ in bb["stmts"]:
+                if st_[0] == "assign" and st_[2][0] == "agg" and st_[2][1].get("k") == "closure":
+                    h = P.by_name.get(("bin", st_[2][1].get("name"))) or P.by_name.get(("lib", st_[2][1].get("name")))
+                    if h is not None and acts(h, {fn["name"]}):
+                        eff.add(bi)
     return eff
 
 
@@ -263,11 +296,20 @@ def run(ctx, chk):
     stores = [(b, s) for b, s, k, pl in acc if k == "w"]
     cap_seeds = {s[1]["l"] for b, s in loads}
     cap_dep = may_depend(f21, cap_seeds)
-    rl = [(bi, t) for bi, t in M.calls_in(f21) if (t[1].get("def") or "").endswith("read_line")]
+    # the input: what read_line delivers, read here or in a local helper (its result and whatever it writes through)
+    from driver_rules import local_closure
+
+    def reads_input(t):
+        d = t[1].get("def") or ""
+        if d.endswith("read_line"):
+            return True
+        g = P.fns.get(t[1].get("id")) if t[1].get("local") else None
+        return g is not None and any((tt[1].get("def") or "").endswith("read_line") for f2 in local_closure(P, g) for _, tt in M.calls_in(f2))
+    rl = [(bi, t) for bi, t in M.calls_in(f21) if reads_input(t)]
     in_seeds = set()
     for bi, t in rl:
         in_seeds.add(t[3]["l"])
-        for a in t[2][1:]:
+        for a in (t[2][1:] if (t[1].get("def") or "").endswith("read_line") else t[2]):
             for l in operand_locals(a):
                 d = d21.single(l)
                 for _ in range(4):
@@ -382,7 +424,7 @@ def run(ctx, chk):
             accepted = set()
             rejected_clean = set()
             sdefs = Defs(f)
-            effects = service_effects(f, sdefs)
+            effects = service_effects(f, sdefs, P)
             handled = set()
             ah_param = 2  # second parameter
             for i, l in enumerate(f["locals"][1:f["argc"] + 1], 1):
